@@ -12,7 +12,8 @@ Transcribes (repaired tree, see findings/C20.json):
 * pyatv/protocols/raop/__init__.py:273     RaopAudio._volume_changed, has_changed_volume, volume,
                                            set_volume, volume_up, volume_down (+-5, one-sided clamp)
 * pyatv/protocols/raop/__init__.py:378     RaopStream.stream_file: user-set level vs the receiver's
-                                           `initialVolume` at stream start
+                                           `initialVolume` at stream start, deferred hand-over
+* pyatv/protocols/raop/stream_client.py:370 StreamClient.set_volume; :451 send_audio `if volume:`
 * pyatv/protocols/mrp/__init__.py:850      MrpAudio.volume, _checked_volume, set_volume,
                                            volume_up, volume_down (absolute volume control),
                                            _volume_did_change (updates for other output devices)
@@ -171,6 +172,8 @@ inductive Ev
   | wire (x : FVal)     -- level handed on towards the device (RAOP: dBFS; MRP: level/100)
   | disp (x : FVal)     -- value dispatched as UpdatedState.Volume
   | ret (x : FVal)      -- value returned by `audio.volume`
+  | tried (x : FVal)    -- dBFS level sent with SET_PARAMETER and rejected by the receiver
+  | late (x : FVal)     -- dBFS level sent by StreamClient.send_audio after RECORD (deferred)
   | raised (e : Err)    -- exception propagated to the caller
   | logged (e : Err)    -- exception inside a state listener (the event loop logs it)
   deriving DecidableEq
@@ -182,9 +185,11 @@ inductive Op
   | read                -- `atv.audio.volume`
   | report (x : FVal)   -- RAOP: some protocol dispatched UpdatedState.Volume x;
                         -- MRP: the device reported a level and `_volume` became x
-  | streamStart (init : Option FVal)
+  | streamStart (init : Option FVal) (accepts : Bool)
                         -- RAOP only: one `stream.stream_file(...)`; `init` = the dBFS level the
-                        -- receiver advertises as `initialVolume` (a float), `none` = not advertised
+                        -- receiver advertises as `initialVolume` (a float), `none` = not advertised;
+                        -- `accepts` = the receiver accepts SET_PARAMETER volume before RECORD
+                        -- (false: Sonos-like, the level is deferred into send_audio)
   | reportOther (x : FVal)
                         -- MRP only: VolumeDidChange addressed to another output device UID
 
@@ -213,6 +218,28 @@ def Raop.setVolume (s : Raop) (level : FVal) : Raop × List Ev :=
     | .error e => (s', [.recv level, .wire d, .raised e])
     | .ok v => (s', [.recv level, .wire d, .disp v])
 
+/-- Python truthiness of a float (`if volume:`): everything but zero, NaN included -/
+def truthyF : FVal → Bool
+  | .fin q => decide (q ≠ 0)
+  | _ => true
+
+/-- stream start against a receiver that rejects SET_PARAMETER volume before RECORD:
+    `RaopAudio.set_volume(v)` converts and sends, the receiver refuses (the context keeps its
+    level, nothing is dispatched), `stream_file` catches that and passes
+    `volume = audio.volume` (percent) to `StreamClient.send_audio`, which after RECORD does
+    `if volume: await self.set_volume(pct_to_dbfs(volume))`; any exception in there leaves
+    send_audio as ProtocolError -/
+def Raop.deferred (s : Raop) (v : FVal) : Raop × List Ev :=
+  let first : List Ev :=
+    match pctToDbfsF rnd v with
+    | .error _ => [.recv v]
+    | .ok d => [.recv v, .tried d]
+  if truthyF v then
+    match pctToDbfsF rnd v with
+    | .error _ => (s, first ++ [.raised .protocol])
+    | .ok d => (⟨some d⟩, first ++ [.late d])
+  else (s, first)
+
 def Raop.step (s : Raop) : Op → Raop × List Ev
   | .set x =>
     match facadeSet x with
@@ -238,7 +265,7 @@ def Raop.step (s : Raop) : Op → Raop × List Ev
     match pctToDbfsF rnd x with
     | .error e => (s, [.logged e])
     | .ok d => (⟨some d⟩, [])
-  | .streamStart init =>
+  | .streamStart init accepts =>
     -- RaopStream.stream_file: `if not audio.has_changed_volume and "initialVolume" in info`
     -- adopt the receiver's level (after the range check, else ProtocolError), otherwise
     -- `await audio.set_volume(audio.volume)` now that a stream client exists
@@ -248,7 +275,7 @@ def Raop.step (s : Raop) : Op → Raop × List Ev
     | _, _ =>
       match Raop.volume rnd s with
       | .error e => (s, [.raised e])
-      | .ok v => Raop.setVolume rnd s v
+      | .ok v => if accepts then Raop.setVolume rnd s v else Raop.deferred rnd s v
   | .reportOther _ => (s, [])      -- not a RAOP operation (the driver rejects it)
 
 /-- run a history; one event list per operation -/
@@ -292,7 +319,7 @@ def Mrp.step (s : Mrp) : Op → Mrp × List Ev
     | .ok r => (s, [.ret r])
   | .report x => (⟨x⟩, [])
   | .reportOther _ => (s, [])      -- `if inner.outputDeviceUID == self.device_uid` is false: ignored
-  | .streamStart _ => (s, [])      -- not an MRP operation (the driver rejects it)
+  | .streamStart _ _ => (s, [])    -- not an MRP operation (the driver rejects it)
 
 def Mrp.run (s : Mrp) : List Op → List (List Ev)
   | [] => []
